@@ -20,9 +20,40 @@ def bound_of(name):
     return BOUND.get(name, DEFAULT_BOUND)
 
 
+TILES = [
+    # (unit, period, first offset, leading signatures)
+    ('iso:0:BEA01', 2048, 32 * KI, []), ('iso:0:BEA01', 2048, 34 * KI, ['iso']),
+    ('iso:0:NSR02', 2048, 32 * KI, []), ('iso:0:TEA01', 2048, 32 * KI, []),
+    ('iso:0:BOOT2', 2048, 32 * KI, []), ('iso:1:CD001', 2048, 32 * KI, []),
+    ('iso:2:CD001', 2048, 32 * KI, []), ('iso:255:CD001', 2048, 34 * KI, ['iso']),
+    ('iso:0:CD001', 2048, 32 * KI, []),
+    ('regi', 64 * KI, 192 * KI, ['vhdx']), ('regi', 4096, 0, ['vhdx']),
+    ('metadata', 64 * KI, 256 * KI, ['vhdx']), ('metadata', 4096, 0, []),
+    ('kdmv_footer', 512, 0, []), ('kdmv', 512, 0, []),
+    ('kdmv_footer', 1536, 0, []),
+    ('mbr', 512, 0, []), ('qcow2', 512, 0, []), ('luks', 592, 0, []),
+    ('luks', 512, 0, []), ('vhd', 512, 0, []), ('vhdx', 64 * KI, 0, []),
+    ('qed', 512, 0, []), ('desc_line', 27, 0, []),
+    ('desc_line', 27, 1024, ['vmdk']),
+]
+
+
 def gen_hostile(rng):
     kind = core.weighted(rng, [('vmdk', 6), ('vhdx', 6), ('text', 2),
-                               ('random', 1), ('valid', 2), ('mutated', 2)])
+                               ('random', 1), ('valid', 2), ('mutated', 2),
+                               ('tiled', 4)])
+    if kind == 'tiled':
+        # one structural unit of some format repeated to the end of a long
+        # stream: whatever an inspector follows (descriptor sequences, table
+        # chains, markers) never ends
+        unit, period, start, lead = rng.choice(TILES)
+        p = {'unit': unit, 'period': period, 'start': start,
+             'lead': list(lead), 'total': rng.choice((MI + 5, MI + 5,
+                                                       2 * MI)),
+             'fill': rng.choice(('zero', 'zero', 'inc', 'text'))}
+        if rng.random() < 0.3:
+            p['start'] = start + rng.choice((0, period, 7 * period))
+        return kind, {'layout': 'tiled', 'p': p}
     if kind == 'vmdk':
         p = G.gen_vmdk(rng, footer=rng.random() < 0.4)
         p['desc_num'] = rng.choice((0, 1, 2047, 2048, 2049, 4096, 1 << 32,
@@ -89,7 +120,8 @@ class C05(Check):
     RULE = ('each run: one multi-MiB stream (VMDK with hostile descriptor '
             'sector counts and the footer flag, VHDX with hostile table '
             'counts / item lengths / region lengths, text, random, valid and '
-            'field-maximised images) x 2-3 chunk schedules x inspectors; '
+            'field-maximised images, one structural unit of a format '
+            'repeated to the end of the stream) x 2-3 chunk schedules x inspectors; '
             'retained bytes checked after every chunk and after finish(). '
             'distinct = distinct (content kind, hostile parameter values, '
             'schedule family, inspector) combinations whose stream is longer '
@@ -98,7 +130,8 @@ class C05(Check):
                   'stub': ['byte source, chunk scheduler']}
     ASSUMPTIONS = ['context_info reports what the inspector retains (the '
                    'property is stated in terms of it)']
-    FAULT_KINDS = ('hostile_field_value', 'inspector_error_genuine',
+    FAULT_KINDS = ('hostile_field_value', 'endless_structure_sequence',
+                   'inspector_error_genuine',
                    'giant_single_chunk', 'empty_chunk')
     PROBES = ('vmdk_descriptor_at_cap', 'vhdx_item_length_clamped',
               'retained_over_256KiB', 'retained_over_1MiB',
@@ -112,7 +145,16 @@ class C05(Check):
         srng = st('schedule')
         scheds = []
         fams = ['whole', None] + ([None] if n < 2 * MI else [])
+        if kind == 'tiled':
+            fams = ['uniform', None]
         for fam in fams:
+            if kind == 'tiled' and fam == 'uniform':
+                # reads no larger than the repeated unit, so that whatever
+                # follows the sequence is offered every element of it
+                k = srng.choice((512, 2048, 2048, 4096))
+                scheds.append({'fam': 'uniform(%d)' % k, 'rle': streams.rle(
+                    streams.uniform_sizes(n, k))})
+                continue
             name, r = streams.gen_schedule(srng, n, info['boundaries'],
                                            family=fam, max_chunks=3000)
             scheds.append({'fam': name, 'rle': r})
@@ -128,6 +170,8 @@ class C05(Check):
 
         def bump(d, k, v=1):
             d[k] = d.get(k, 0) + v
+        if case.get('kind') == 'tiled':
+            bump(fa, 'endless_structure_sequence')
         if case.get('kind') in ('vmdk', 'vhdx', 'mutated'):
             bump(fa, 'hostile_field_value')
         if n > 4 * MI:
@@ -136,7 +180,7 @@ class C05(Check):
         p = case['content'].get('p') or {}
         hostile = [p.get(k) for k in ('desc_num', 'r_count', 'm_count',
                                       'item_length', 'meta_len', 'footer',
-                                      'item_offset')]
+                                      'item_offset', 'unit', 'period')]
         for j, s in enumerate(case['scheds']):
             sizes = streams.expand(s['rle'])
             bump(stats['families'], s['fam'].split('(')[0])
